@@ -153,6 +153,47 @@ pub fn execute(case: &Case, opts: ExecOpts, mut instr: Box<dyn Instrument>, fata
             }
             let _ = take_panics(); // reference panics are not the explored execution's
         }
+        // ---- explored execution through the command-line runner: configuration file, query file read
+        // in chunks, one run() per chunk appending to the same output file ----
+        if let Some(cli) = case.params.get("cli").filter(|c| c.is_object()) {
+            use routee_compass::app::cli::{cli_args::CliArgs, run::command_line_runner};
+            let mut text = String::new();
+            for b in &case.batches {
+                for q in b {
+                    text.push_str(&serde_json::to_string(q).unwrap());
+                    text.push_str(if cli["crlf"].as_bool().unwrap_or(false) { "\r\n" } else { "\n" });
+                }
+            }
+            if cli["no_final_newline"].as_bool().unwrap_or(false) {
+                while text.ends_with('\n') || text.ends_with('\r') {
+                    text.pop();
+                }
+            }
+            sim::with(|s| {
+                s.put_file("/sim/config.json", serde_json::to_vec(&case.world.config(false)).unwrap());
+                s.put_file("/sim/queries.json", text.into_bytes());
+            });
+            let args = CliArgs { config_file: "/sim/config.json".into(), query_file: "/sim/queries.json".into(), chunksize: cli["chunksize"].as_i64(), newline_delimited: true };
+            let pool = harness::make_pool(case.workers);
+            let run_cfg = case.run_parallelism.map(|p| serde_json::json!({"parallelism": p}));
+            instr.before_run(0);
+            sim::set_quiet(false);
+            let r = catch_unwind(AssertUnwindSafe(|| pool.install(|| command_line_runner(&args, None, run_cfg.as_ref()))));
+            sim::set_quiet(true);
+            obs.runs.push(match r {
+                Ok(Ok(())) => Some(Ok(vec![])),
+                Ok(Err(e)) => Some(Err(e.to_string())),
+                Err(_) => None,
+            });
+            drop(pool);
+            obs.panics = take_panics();
+            obs.extra = instr.extra();
+            obs.out_file = sim::with(|s| s.get_file(&case.world.out_path()).map(|d| d.to_vec()));
+            if case.world.out2.is_some() {
+                obs.out_file2 = sim::with(|s| s.get_file(&case.world.out2_path()).map(|d| d.to_vec()));
+            }
+            return obs;
+        }
         // ---- explored execution ----
         if opts.explore_build {
             sim::set_quiet(false);
